@@ -104,6 +104,7 @@ func (dr *DialogueRunner) Next(choice int) (*DialogueElement, error) {
 				statements: statements,
 			})
 		}
+		dr.lastStatement = nil // the choice has been consumed
 	}
 
 	if dr.statementsToRun.Size() == 0 {
